@@ -22,6 +22,7 @@ var c19Special = []string{
 	"v1.2", "v2", "v1.2.3+build.5",
 	"", "a", "name", "my-project", "a b", "a.b", "a=b", "#x", "[x]", "'", "''", "'''", "\"", "\"\"", "\"\"\"", "\\", "\\n", "\n", "\r", "\r\n", "\t",
 	"\x00", "\x7f", "\x1b", " ", " ", "é", "世界", "\U0001F600", "é", "\ufeff", "true", "false", "1", "1.5", "-", "_", "a-b_c9",
+	"\U000E0067", "tag\U000E0001x", "\U000F0000\U0010FFFF", "zero\u200bwidth", "\u202egnp.exe", "\U0001F3F4\U000E0067\U000E0062\U000E0065\U000E006E\U000E0067\U000E007F",
 	"inf", "nan", "{}", "{a = 1}", "a, b", "x = {path = \"p\", version = \"v1.0.0\"}", " lead", "trail ", " ", "A", "ключ", "0x10", "1979-05-27",
 }
 
@@ -32,7 +33,9 @@ func c19String(r *rand.Rand) string {
 	case 1:
 		return c19Special[r.IntN(len(c19Special))] + c19Special[r.IntN(len(c19Special))]
 	default:
-		alpha := []string{"a", "b", "Z", "0", "-", "_", ".", " ", "\"", "'", "\\", "\n", "\t", "=", "#", "[", "]", "é", "世", "\U0001F600", "\x00", "\x01", "\x7f", "{", "}", ","}
+		alpha := []string{"a", "b", "Z", "0", "-", "_", ".", " ", "\"", "'", "\\", "\n", "\t", "=", "#", "[", "]", "é", "世", "\U0001F600", "\x00", "\x01", "\x7f", "{", "}", ",",
+			// runes that do not render: zero-width and bidi controls, BOM, no-break space, tag characters, private-use planes, the last code point
+			"\u200b", "\u202e", "\ufeff", "\u00a0", "\U000E0001", "\U000E0067", "\U000F0000", "\U0010FFFF", "\uE000", "\u2028", "\u0085", "\r", "\x1f", "\x08", "\x0c"}
 		var b strings.Builder
 		for n := r.IntN(10); n > 0; n-- {
 			b.WriteString(alpha[r.IntN(len(alpha))])
